@@ -9,6 +9,7 @@ import (
 	"sort"
 	"strings"
 	"sync"
+	"time"
 
 	"github.com/canonical/sqlair"
 
@@ -507,7 +508,12 @@ func runL2(args []string) {
 			parseRejected++
 			continue
 		}
-		res := runL2Case(c, c.Samples, c.Args)
+		var res *l2Run
+		if withWatchdog(15*time.Second, func() { res = runL2Case(c, c.Samples, c.Args) }) {
+			rep.countCase(fmt.Sprint(describeL2(c)), true)
+			rep.addCrash(Finding{Case: describeL2(c), Kind: "crash", Detail: "Prepare/Query did not return within 15 s (hang)"})
+			continue
+		}
 		for _, nt := range c.Note {
 			notes[nt]++
 		}
